@@ -1338,9 +1338,26 @@ func c16Writer(w *World, r *Report, fn *ssa.Function) {
 			}
 		}
 	}
+	lpBlocks, lpHeader, lpPos := lp.Blocks, lp.Next.Block(), ssa.Instruction(lp.Range)
+	isMapValue := func(v ssa.Value) bool { return sameValue(v, valV) }
+	// the other form: the keys are collected first (every key, to be put in a fixed order) and the files are written in a loop over
+	// the collected keys, each with the map's value under that key
+	if kb, hd, key, ok := keyListLoop(fn, lp, keyV); ok {
+		lpBlocks, lpHeader, keyV = kb, hd, key
+		lpPos = hd.Instrs[0]
+		isMapValue = func(v ssa.Value) bool {
+			lk, ok := stripIdentity(v).(*ssa.Lookup)
+			if !ok {
+				if ex, isEx := stripIdentity(v).(*ssa.Extract); isEx && ex.Index == 0 {
+					lk, ok = ex.Tuple.(*ssa.Lookup)
+				}
+			}
+			return ok && lk.X == ssa.Value(fn.Params[1]) && sameValue(lk.Index, key)
+		}
+	}
 	ws := w.writerSet(fn)
 	var calls []inlinedCall
-	collectInlined(fn, lp.Blocks, ws, bindings{}, 0, &calls)
+	collectInlined(fn, lpBlocks, ws, bindings{}, 0, &calls)
 	var create, write *inlinedCall
 	var loopCallToWrite ssa.Instruction // the instruction in the loop (direct or helper call) that leads to the write
 	for i := range calls {
@@ -1408,17 +1425,17 @@ func c16Writer(w *World, r *Report, fn *ssa.Function) {
 		r.fail(rule, "path is dir + \"/\" + map key", w.instrPos(create.call), "created path is not <directory parameter> + \"/\" + <range key>")
 	}
 	// data identity
-	if sameValue(resolveParam(write.call.Common().Args[1], write.bs), valV) {
+	if isMapValue(resolveParam(write.call.Common().Args[1], write.bs)) {
 		r.pass(rule, "bytes written are the map value", w.instrPos(write.call), "")
 	} else {
 		r.fail(rule, "bytes written are the map value", w.instrPos(write.call), "the data operand of the write is not the range value unmodified")
 	}
 	// every completed iteration passes through the write
-	header := lp.Next.Block()
+	header := lpHeader
 	all := loopCallToWrite != nil
 	if all {
 		for _, p := range header.Preds {
-			if lp.Blocks[p] && header.Dominates(p) && p != header {
+			if lpBlocks[p] && header.Dominates(p) && p != header {
 				if !loopCallToWrite.Block().Dominates(p) {
 					all = false
 				}
@@ -1426,9 +1443,9 @@ func c16Writer(w *World, r *Report, fn *ssa.Function) {
 		}
 	}
 	if all {
-		r.pass(rule, "no entry skipped", w.instrPos(lp.Range), "")
+		r.pass(rule, "no entry skipped", w.instrPos(lpPos), "")
 	} else {
-		r.fail(rule, "no entry skipped", w.instrPos(lp.Range), "an iteration can reach the next one without passing through the write")
+		r.fail(rule, "no entry skipped", w.instrPos(lpPos), "an iteration can reach the next one without passing through the write")
 	}
 	// written file handle is the created one
 	if write.call.Common().StaticCallee().String() != "os.WriteFile" {
@@ -2236,4 +2253,95 @@ func emptinessGuard(fn *ssa.Function, bs bindings, g *ssa.Global, at *ssa.BasicB
 		}
 	}
 	return false
+}
+
+// keyListLoop recognises "collect every key of the map, then loop over the collected keys": in the map-range loop lp every
+// iteration appends the range key to one slice, and a later loop ranges over that slice by index. Returns the blocks and header of
+// that second loop and the value of its element (a key of the map).
+func keyListLoop(fn *ssa.Function, lp rangeLoop, mapKey ssa.Value) (map[*ssa.BasicBlock]bool, *ssa.BasicBlock, ssa.Value, bool) {
+	var app *ssa.Call
+	for b := range lp.Blocks {
+		for _, ins := range b.Instrs {
+			c, ok := ins.(*ssa.Call)
+			if !ok {
+				continue
+			}
+			if bi, ok := c.Call.Value.(*ssa.Builtin); !ok || bi.Name() != "append" || len(c.Call.Args) != 2 {
+				continue
+			}
+			for _, o := range variadicOperands(c.Call.Args[1]) {
+				if sameValue(o, mapKey) {
+					app = c
+				}
+			}
+		}
+	}
+	if app == nil {
+		return nil, nil, nil, false
+	}
+	// every iteration appends
+	header := lp.Next.Block()
+	for _, p := range header.Preds {
+		if lp.Blocks[p] && header.Dominates(p) && p != header && !app.Block().Dominates(p) {
+			return nil, nil, nil, false
+		}
+	}
+	var fromApp func(v ssa.Value, depth int, seen map[ssa.Value]bool) bool
+	fromApp = func(v ssa.Value, depth int, seen map[ssa.Value]bool) bool {
+		v = stripIdentity(v)
+		if v == ssa.Value(app) {
+			return true
+		}
+		if depth > 5 || seen[v] {
+			return false
+		}
+		seen[v] = true
+		switch x := v.(type) {
+		case *ssa.Phi:
+			for _, e := range x.Edges {
+				if fromApp(e, depth+1, seen) {
+					return true
+				}
+			}
+		case *ssa.UnOp:
+			if al, ok := x.X.(*ssa.Alloc); ok && al.Referrers() != nil {
+				for _, ref := range *al.Referrers() {
+					if st, ok := ref.(*ssa.Store); ok && st.Addr == ssa.Value(al) && fromApp(st.Val, depth+1, seen) {
+						return true
+					}
+				}
+			}
+		}
+		return false
+	}
+	for _, b := range fn.Blocks {
+		if lp.Blocks[b] {
+			continue
+		}
+		for _, ins := range b.Instrs {
+			ld, ok := ins.(*ssa.UnOp)
+			if !ok || ld.Op != token.MUL {
+				continue
+			}
+			ia, ok := ld.X.(*ssa.IndexAddr)
+			if !ok || !fromApp(ia.X, 0, map[ssa.Value]bool{}) {
+				continue
+			}
+			// indexed by a range index
+			var phi *ssa.Phi
+			switch ix := ia.Index.(type) {
+			case *ssa.Phi:
+				phi = ix
+			case *ssa.BinOp:
+				if p, ok := ix.X.(*ssa.Phi); ok {
+					phi = p
+				}
+			}
+			if phi == nil || phi.Comment != "rangeindex" {
+				continue
+			}
+			return naturalLoop(phi.Block()), phi.Block(), ld, true
+		}
+	}
+	return nil, nil, nil, false
 }
